@@ -111,11 +111,23 @@ pub fn stub_write<N: lexical_core::ToLexical>(_n: N, bytes: &mut [u8]) -> &mut [
     &mut bytes[..1]
 }
 
+/// Any other lexical_core formatting entry point (non-default options) is NOT the contract for
+/// finite floats: mark its output so that its use is noticed.
+pub fn stub_write_with_options<N: lexical_core::ToLexicalWithOptions, const FORMAT: u128>(
+    _n: N,
+    bytes: &mut [u8],
+    _options: &N::Options,
+) -> &mut [u8] {
+    bytes[0] = b'G';
+    &mut bytes[..1]
+}
+
 macro_rules! real_sentinels {
     ($name:ident, $t:ty) => {
         #[kani::proof]
         #[kani::unwind(12)]
         #[kani::stub(lexical_core::write, stub_write)]
+        #[kani::stub(lexical_core::write_with_options, stub_write_with_options)]
         pub fn $name() {
             let v: $t = kani::any();
             let mut out = Out::new();
